@@ -164,6 +164,15 @@ Theorem write_skip_empty_refuted :
     fs_get (store_write st fs) (st_cache_path st) = Some [].
 Proof. exact write_skip_empty_refuted_lemma. Qed.
 
+(* every file the writer can produce within the configured limits loads back: load_cache_data has no size bound of its
+   own (translator fact re-read from cache_store.rs on every run: read_to_string of the whole file, no take / fixed
+   buffer / size constant; fails closed) -- the only limits are max_peers / max_addrs, applied by the clean-up *)
+Theorem written_files_load :
+  Consts.boot_load_unbounded_read = true /\
+  forall (enc : cache -> string) dec cfg now c,
+    dec (enc c) = Some c -> clean cfg now c -> load_cache dec cfg now (Some (enc c)) = Ok c.
+Proof. split; [reflexivity | exact save_load_clean_lemma]. Qed.
+
 (* ---- atomic replacement (premise built into `fs_do`: Commit = rename replaces the target in one step,
    temporary files are private to their writer) *)
 Theorem atomic_replace : forall (valid : string -> Prop) init steps,
